@@ -54,6 +54,14 @@ RULES = {
     "C15": "non-trivial = pool_size was assigned; distinct by event-log digest",
 }
 
+# Random runs in which the trigger of ONE recorded finding is NOT steered around, for the properties
+# whose oracles that finding does not touch: keeps them strict in the region clean runs avoid.
+UNSTEER = {
+    "F-EARLY": ("C01", "C06", "C07", "C09", "C10", "C11", "C13", "C14"),
+    "F-LOCK": ("C01", "C02", "C03", "C05", "C06", "C07", "C09", "C10", "C11", "C14"),
+}
+QUICK_HRAND = 1000
+
 SWEEP_STEPS = {
     "C01": ["spawn2", "cancel_all"],
     "C02": ["cancel_all", "flush", "cancel_live"],
@@ -96,9 +104,13 @@ def units(prop, tier, seed):
     from . import scenarios
     for u in scenarios.units(prop, tier, seed):
         yield ("scen", u, next(order))
+    un = [tag for tag, props in UNSTEER.items() if prop in props]
     if tier == "quick":
         for i in range(QUICK_SWEEPS):
             yield ("sweep", subseed(seed, prop, "sweep", i), next(order))
+        for tag in un:
+            for i in range(QUICK_HRAND):
+                yield ("hrand", (tag, subseed(seed, prop, "hrand", tag, i)), next(order))
         for i in range(QUICK_RANDOM):
             yield ("rand", subseed(seed, prop, "rand", i), next(order))
     else:
@@ -107,6 +119,10 @@ def units(prop, tier, seed):
             for _ in range(50):
                 yield ("rand", subseed(seed, prop, "rand", i), next(order))
                 i += 1
+            for tag in un:
+                for _ in range(8):
+                    yield ("hrand", (tag, subseed(seed, prop, "hrand", tag, i)), next(order))
+                    i += 1
             yield ("sweep", subseed(seed, prop, "sweep", i), next(order))
 
 
@@ -141,6 +157,14 @@ def exec_unit(prop, unit, agg):
         sim = Sim(run, {prop})
         sim.execute(g.next_step)
         _account(prop, sim, agg, order, "rand")
+    elif kind == "hrand":
+        tag, sd = arg
+        g = Gen(sd, prop, False)
+        steer = [t for t in ("F-EARLY", "F-LOCK") if t != tag]
+        run = {"prop": prop, "seed": sd, "clean": False, "steer": steer, "config": g.make_config(), "steps": []}
+        sim = Sim(run, {prop})
+        sim.execute(g.next_step)
+        _account(prop, sim, agg, order, "hrand:" + tag)
     elif kind == "sweep":
         sweep_unit(prop, arg, agg, order)
     elif kind == "scen":
